@@ -292,3 +292,74 @@ Proof.
   destruct kind; [destruct (r_enabled r && r_matching r) | destruct (r_enabled r && negb (r_matching r))];
     rewrite ?ids_at_update; reflexivity.
 Qed.
+
+(* ---- matching dispatcher: ONE registration order when a single registered path matches --------------------- *)
+Lemma enabled_matching_path_is_key : forall st id r, Inv st -> nth_error (resps st) id = Some r ->
+  r_enabled r = true -> r_matching r = true -> In (r_path r) (keys (act_match st)).
+Proof.
+  intros st id r HI Er He Hm.
+  assert (Hc : In id (cmdp st)) by (apply (inv_enabled st HI); unfold enabled; rewrite Er; assumption).
+  pose proof (inv_tbl st HI true (r_path r)) as Ht. unfold ids_at, tbl in Ht.
+  destruct (tbl_get (act_match st) (r_path r)) as [l|] eqn:Eg.
+  - clear - Eg. induction (act_match st) as [| [k' l'] t IHt]; simpl in *; [discriminate|].
+    destruct (bytes_eqb (r_path r) k') eqn:E; [left; symmetry; apply bytes_eqb_eq; assumption | right; apply IHt; assumption].
+  - exfalso. assert (Hin : In id (filter (has_key st true (r_path r)) (cmdp st))).
+    { apply filter_In. split; [assumption|]. unfold has_key. rewrite Er, Hm, bytes_eqb_refl. reflexivity. }
+    rewrite <- Ht in Hin. contradiction.
+Qed.
+
+Lemma flat_map_single : forall (f : list Z -> list nat) ks k0, NoDup ks ->
+  (forall k, In k ks -> k <> k0 -> f k = []) ->
+  (In k0 ks -> flat_map f ks = f k0) /\ (~ In k0 ks -> flat_map f ks = []).
+Proof.
+  induction ks as [| k ks IH]; intros k0 Hnd Hz; [split; [contradiction | reflexivity]|].
+  inversion Hnd as [| ? ? Hnin Hnd']; subst. cbn [flat_map].
+  assert (Hz' : forall k', In k' ks -> k' <> k0 -> f k' = []) by (intros k' Hk Hk0; apply Hz; [right; assumption | assumption]).
+  destruct (IH k0 Hnd' Hz') as [IH1 IH2].
+  destruct (list_eq_dec Z.eq_dec k k0) as [-> | Hne].
+  - split; [|intro Hn; exfalso; apply Hn; left; reflexivity].
+    intros _. rewrite (IH2 Hnin), app_nil_r. reflexivity.
+  - rewrite (Hz k (or_introl eq_refl) Hne). cbn [app]. split.
+    + intros [Hi | Hi]; [congruence | apply IH1; assumption].
+    + intro Hn. apply IH2. intro Hi. apply Hn. right. assumption.
+Qed.
+
+Lemma match_single_path : forall st m t src port k0, Inv st ->
+  (forall k, In k (keys (act_match st)) -> matches m k = true -> k = k0) ->
+  map i_id (snd (dispatch_match_d st m t src port)) = filter (fires_m st m src port) (cmdp st).
+Proof.
+  intros st m t src port k0 HI Hone. rewrite match_ids by assumption.
+  (* pointwise: fires_m is "the single path matches and the responder sits on it" *)
+  assert (HP : forall id, In id (cmdp st) ->
+            fires_m st m src port id = matches m k0 && fires st true k0 m src port id).
+  { intros id Hc. apply (inv_enabled st HI) in Hc. unfold enabled in Hc. unfold fires_m, fires.
+    destruct (nth_error (resps st) id) as [r|] eqn:Er; [|rewrite andb_false_r; reflexivity].
+    rewrite Hc. simpl. destruct (r_matching r) eqn:Em; simpl; [|rewrite andb_false_r; reflexivity].
+    pose proof (enabled_matching_path_is_key st id r HI Er Hc Em) as Hk.
+    destruct (bytes_eqb k0 (r_path r)) eqn:Eb.
+    - apply bytes_eqb_eq in Eb. subst k0. simpl. reflexivity.
+    - simpl. rewrite andb_false_r. destruct (matches m (r_path r)) eqn:Emt; [|reflexivity].
+      exfalso. apply bytes_eqb_neq in Eb. apply Eb. symmetry. apply Hone; assumption. }
+  rewrite (filter_ext_in_l _ _ _ (cmdp st) HP).
+  set (g := fun k => if matches m k then filter (fires st true k m src port) (cmdp st) else []).
+  assert (Hz : forall k, In k (keys (act_match st)) -> k <> k0 -> g k = []).
+  { intros k Hk Hne. unfold g. destruct (matches m k) eqn:Emk; [|reflexivity]. exfalso. apply Hne. apply Hone; assumption. }
+  destruct (flat_map_single g (keys (act_match st)) k0 (inv_keys st HI true) Hz) as [H1 H2].
+  assert (Hfalse : forall l : list nat, filter (fun _ => false) l = []) by (induction l; simpl; auto).
+  destruct (matches m k0) eqn:Em0.
+  - destruct (in_dec (list_eq_dec Z.eq_dec) k0 (keys (act_match st))) as [Hin | Hnin].
+    + rewrite (H1 Hin). unfold g. rewrite Em0. reflexivity.
+    + rewrite (H2 Hnin). symmetry.
+      (* nobody sits on a path that is not a key *)
+      assert (Hnone : forall id, In id (cmdp st) -> true && fires st true k0 m src port id = false).
+      { intros id' Hc'. apply (inv_enabled st HI) in Hc'. unfold enabled in Hc'. unfold fires. simpl.
+        destruct (nth_error (resps st) id') as [r|] eqn:Er; [|reflexivity].
+        rewrite Hc'. simpl. destruct (r_matching r) eqn:Emr; simpl; [|reflexivity].
+        destruct (bytes_eqb k0 (r_path r)) eqn:Eb; [|reflexivity].
+        exfalso. apply bytes_eqb_eq in Eb. subst k0. apply Hnin. eapply enabled_matching_path_is_key; eassumption. }
+      rewrite (filter_ext_in_l _ _ (fun _ => false) (cmdp st) Hnone). apply Hfalse.
+  - simpl. rewrite Hfalse.
+    destruct (in_dec (list_eq_dec Z.eq_dec) k0 (keys (act_match st))) as [Hin | Hnin].
+    + rewrite (H1 Hin). unfold g. rewrite Em0. reflexivity.
+    + apply (H2 Hnin).
+Qed.
